@@ -523,6 +523,13 @@ class Alt(T):
 
     def perturb(self, r, v, d=0):
         i = self.which(v)
+        if i is not None and len(self.ts) > 1 and r.random() < 0.2:
+            # the same content in the OTHER container form: a number k <-> the one-element list [k] (a class that prints or
+            # normalises both alike must still tell them apart in == exactly when hash does; round-6 seed C12_13)
+            if isinstance(v, int) and not isinstance(v, bool) and any(t.accepts([v]) for j, t in enumerate(self.ts) if j != i):
+                return [v]
+            if isinstance(v, list) and len(v) == 1 and any(t.accepts(v[0]) for j, t in enumerate(self.ts) if j != i):
+                return v[0]
         if i is None or (len(self.ts) > 1 and r.random() < 0.25):
             return r.choice([t for j, t in enumerate(self.ts) if j != i]).gen(r, d)
         return self.ts[i].perturb(r, v, d)
